@@ -259,6 +259,46 @@ func gen(gg *hx.Gen) {
 		g.StatN("aead.bitflips.key(x3paths)", 8*32)
 		g.Stat(fmt.Sprintf("aead.flips.x=%d", x))
 	}
+	// ---- AEAD: the AD tamper families with LONG additional data (every length class C01 uses for equality):
+	// every AD bit for 255/256/257/300, first/middle/last-byte bits for all of 255..600, 1000, 2048, 4096, 65536+13, 65536+256, AD length ±1,
+	// AD–ct boundary moved; all three paths
+	longADs := []int{255, 256, 257, 269, 300, 512, 525, 600}
+	for _, adLen := range []int{255, 256, 257, 300} {
+		x := r.Intn(2)
+		key, nonce, ad, pt := r.Bytes(32), r.Bytes(12+12*x), r.Bytes(adLen), r.Bytes(r.Intn(80))
+		ct := newAEAD(x, key).Seal(nil, nonce, pt, ad)
+		for _, p := range paths {
+			g.Emit("adflips x=%d path=%s key=%s nonce=%s ad=%s ct=%s dst=- cap=0", x, p, hx.Hex(key), hx.Hex(nonce), hx.Hex(ad), hx.Hex(ct))
+		}
+		g.StatN("aead.longad.bitflips(x3paths)", 8*adLen)
+	}
+	for _, adLen := range append(longADs, 1000, 2048, 4096, 65536+13, 65536+256) {
+		for rep := 0; rep < 2 && (rep == 0 || adLen < 5000); rep++ {
+			x := r.Intn(2)
+			key, nonce, ad, pt := r.Bytes(32), r.Bytes(12+12*x), r.Bytes(adLen), r.Bytes(r.Intn(200))
+			ct := newAEAD(x, key).Seal(nil, nonce, pt, ad)
+			emitOpen := func(ad, ct []byte, what string) {
+				dst, spare := dstFor(r, max(0, len(ct)-16))
+				for _, p := range paths {
+					g.Emit("open x=%d path=%s key=%s nonce=%s ad=%s ct=%s dst=%s cap=%d place=sep", x, p, hx.Hex(key), hx.Hex(nonce), hx.Hex(ad), hx.Hex(ct), hx.Hex(dst), spare)
+				}
+				g.Stat("aead.longad." + what + "(x3paths)")
+			}
+			emitOpen(ad, ct, "valid")
+			for _, at := range []int{0, 1, 12, 13, 15, 16, adLen / 2, adLen - 17, adLen - 16, adLen - 2, adLen - 1} {
+				ad2 := append([]byte(nil), ad...)
+				ad2[at] ^= byte(1 << uint(r.Intn(8)))
+				emitOpen(ad2, ct, "flip-first/middle/last")
+			}
+			emitOpen(append(append([]byte(nil), ad...), 0), ct, "ad+1")
+			emitOpen(ad[:adLen-1], ct, "ad-1")
+			emitOpen(ad[:adLen-16], ct, "ad-16")
+			if len(ct) > 16 { // move the AD–ct boundary: same concatenation, different split
+				emitOpen(append(append([]byte(nil), ad...), ct[0]), ct[1:], "boundary")
+			}
+			emitOpen(ad[:13], ct, "ad-truncated-to-13")
+		}
+	}
 	// ---- AEAD: truncation / extension / multi-byte changes / short inputs / valid
 	nopen := g.Count(1300, 25000)
 	for i := 0; i < nopen; i++ {
@@ -470,7 +510,7 @@ func exec(line string) string {
 func execOne(o hx.Op, ar *arena) string {
 	dst0, spare := o.Hex("dst"), o.Int("cap")
 	switch o.Cmd {
-	case "open", "flips":
+	case "open", "flips", "adflips":
 		x := o.Int("x")
 		path := o.Str("path")
 		cp.VerifSetAVX2(origAVX2 && path != "off")
@@ -534,6 +574,10 @@ func execOne(o hx.Op, ar *arena) string {
 					bad = append(bad, fmt.Sprintf("%s%d:%s", tag, i, strings.TrimSpace(mut)))
 				}
 			}
+		}
+		if o.Cmd == "adflips" {
+			try("a", ad, func(f []byte) ([]byte, error, []byte, string) { return call(key, nonce, ct, f) })
+			return fmt.Sprintf("n=%d acc=%s bad=%s", n, hx.JoinStrs(acc), hx.JoinStrs(bad))
 		}
 		try("c", ct, func(f []byte) ([]byte, error, []byte, string) { return call(key, nonce, f, ad) })
 		try("n", nonce, func(f []byte) ([]byte, error, []byte, string) { return call(key, f, ct, ad) })
